@@ -18,8 +18,8 @@ RULE = (
 ASSUMPTIONS = ["eligibility of a statement for removal is decided by the model", "corpus E + layer-B nests"]
 BOUNDS = {"quick": dict(corpus_k=1, small=["P8"], small_k=2, nest_depth=1, nest_full_limit=120), "thorough": dict(corpus_k=2, small=["P5", "P6", "P8"], small_k=3, nest_depth=2, nest_full_limit=3000)}
 
-FREE_VARIANTS = ["indent", "col1", "cont-amp", "cont-amp-tight", "cont-noamp"]
-FIXED_VARIANTS = ["!$", "c$", "C$", "*$", "!$cont", "c$cont"]
+FREE_VARIANTS = ["indent", "col1", "cont-amp", "cont-amp-tight", "cont-noamp", "cont-in-literal"]
+FIXED_VARIANTS = ["!$", "c$", "C$", "*$", "!$cont", "c$cont", "!$cont-in-literal"]
 OMP_LINES = ["!$omp parallel do", "!$OMP END PARALLEL DO"]
 
 
@@ -53,6 +53,17 @@ def splittable(s):
     k = body.find(" ")
     q = min([body.find(c) for c in "'\"" if c in body] or [len(body)])
     return k if 0 < k < q else -1
+
+
+def literal_split(s):
+    """position inside the first character literal of the statement (after
+    its second character) or -1"""
+    import re
+
+    m = re.search(r"(['\"])[^'\"]{3,}\1", s.text)
+    if not m:
+        return -1
+    return m.start() + 3
 
 
 def render(prog, ch, form, nvariants):
@@ -90,6 +101,29 @@ def render(prog, ch, form, nvariants):
         S.append(i)
         var = variants[v - 1]
         k = splittable(s)
+        if var.endswith("cont-in-literal"):
+            ls = literal_split(s)
+            pre = (s.name + ": " if s.name else "")
+            if ls < 0:
+                var = "indent" if form == "free" else "!$"
+            elif form == "free":
+                # the statement is continued in the middle of a character literal
+                new = [ind + "!$ " + pre + s.text[:ls] + "&", ind + "!$ &" + s.text[ls:]]
+                lines += new
+                sent_lines += new
+                continue
+            else:
+                head = "!$    " + pre + s.text[:ls]
+                if len(head) <= 72:
+                    new = [head + " " * (72 - len(head)) if False else head.ljust(72) if s.text[ls - 1] != " " and False else head, "!$   &" + s.text[ls:]]
+                    # fixed form: a literal continued over lines is only defined
+                    # when the cut is in column 72; pad in front of the statement
+                    padn = 72 - len(head)
+                    new = ["!$    " + " " * padn + pre + s.text[:ls], "!$   &" + s.text[ls:]]
+                    lines += new
+                    sent_lines += new
+                    continue
+                var = "!$"
         if form == "free":
             if var == "indent" or (var.startswith("cont") and k < 0):
                 new = [ind + "!$ " + s.line()]
@@ -218,7 +252,7 @@ def run(task):
             continue
         stats = {}
         n = 0
-        nvar = 6
+        nvar = 7
         if k is None:
             # small nests: all subsets if the product is small, else k = 2
             cnt = 0
@@ -226,7 +260,7 @@ def run(task):
                 cnt += 1
                 if cnt > b["nest_full_limit"]:
                     break
-            k, nvar = (None, 2) if cnt <= b["nest_full_limit"] else (2, 6)
+            k, nvar = (None, 2) if cnt <= b["nest_full_limit"] else (2, 7)
         for vec, ch, case in explore.explore(lambda ch: render(prog, ch, form, nvar), k, stats):
             n += 1
             if n % nshards != shard:
